@@ -19,9 +19,9 @@ fi
 if [ "$res" = ok ]; then
   for d in $demos; do mkdir -p "$wt/$(dirname $d)"; cp "$src/$d" "$wt/$d"; done
   pkgs=$(for d in $demos; do echo "./$(dirname $d)"; done | sort -u)
-  if (cd "$wt" && go test -vet=off -count=1 -run 'Seed' $pkgs >/tmp/seedconf_with.log 2>&1); then res="demo-passes-with-patch"; fi
+  if (cd "$wt" && go test -tags verif -vet=off -count=1 -run 'Seed' $pkgs >/tmp/seedconf_with.log 2>&1); then res="demo-passes-with-patch"; fi
   ( cd "$wt" && git apply -R "$src/seed_patch.diff" )
-  if ! (cd "$wt" && go test -vet=off -count=1 -run 'Seed' $pkgs >/tmp/seedconf_without.log 2>&1); then res="demo-fails-without-patch"; fi
+  if ! (cd "$wt" && go test -tags verif -vet=off -count=1 -run 'Seed' $pkgs >/tmp/seedconf_without.log 2>&1); then res="demo-fails-without-patch"; fi
 fi
 echo "seed $id: $res"
 if [ "$res" = ok ]; then
